@@ -910,6 +910,13 @@ func (ex *Executor) toSymSlice(st *State, b *SliceV, t types.Type) *SymSliceV {
 		for i := b.Lo; i < b.Hi; i++ {
 			e, ok := av.E[i].(*Term)
 			if !ok {
+				if _, isIface := av.E[i].(*IfaceV); isIface && es == SInt {
+					e = ex.asTerm(st, av.E[i])
+				} else {
+					return nil
+				}
+			}
+			if e.S != es {
 				return nil
 			}
 			cur = Store(cur, IntLit(int64(i-b.Lo)), e)
